@@ -263,6 +263,9 @@ def check(prog, res, tier):
         if 'def-time' in rv.tags:
             return [definite('the random fill is computed in a parameter default, i.e. once at import time: every block built '
                              'without an explicit fill shares the same 64 bits')]
+        if 'cached' in rv.tags:
+            return [definite('the random fill comes out of a memoised function (functools.lru_cache / cache): it is drawn once and '
+                             'every later block built without an explicit fill shares the same 64 bits', firm=True)]
         if 'secrets' not in rv.tags:
             return [definite(f'random fill does not come from the secrets module (origin: '
                              f'{p.interp.origin.get(rv.lin.syms()[0]) if rv.lin.syms() else rv})')]
